@@ -350,7 +350,72 @@ def da_block(args):
         q = pot * 1000 / (R_GAS * T)
         eng.prove(f"{base}/da.energy_is_RT_over_root_of_minus_slope/{cfg}", sx.And(pot > 0, sx.eq(q * q * (-s), 1)), extra=x)
     obs += collect(eng, run, base, cfg)
+    if n == 4:
+        obs += _da_exponent_block()
     return obs
+
+
+def _da_exponent_block():
+    """exp=None: the exponent is what the bounded scalar minimiser returns for an objective that (a) is 1 - r^2 of the
+    linear fit at that exponent -- a quantity in [0, 1] that does not depend on the scale of the abscissa and is 0 exactly
+    for a perfect line, hence 0 at the generating exponent by the transform lemma (CAS obligation) and the exact-fit
+    lemma -- (b) on the interval [1, 3]; failure of the minimiser is a CalculationError; volume and energy are computed
+    from the fit at the returned exponent."""
+    st = _prep()
+    DA, E = st['DA'], st['E']
+    base = f"{P}/dr_da_plots.da_plot_raw"
+    cfg = 'n=4|exponent=optimised'
+    eng = sx.Engine(max_paths=400, div0='assume')
+    replay = {'kind': 'c14.da_exponent'}
+
+    def run():
+        stat = stubs.StatsStub()
+        opt = stubs.OptimizeStub()
+        DA.stats, DA.optimize = stat, opt
+        M, rho, T = eng.real('M', positive=True), eng.real('rho', positive=True), eng.real('T', positive=True)
+        ps = _pressures(eng, 4)
+        ls = [eng.real(f'l{i}', positive=True) for i in range(4)]
+        try:
+            res = DA.da_plot_raw(_arr(ps), _arr(ls), T, M, rho, None, None)
+            out = 'return'
+        except E.CalculationError:
+            out = 'CalculationError'
+        except sx.SymZeroDivision:
+            return  # fitted slope exactly zero (constant loading): RT / 0; outside the method's domain, no claim
+        x = {'replay': replay, 'observed': out}
+        eng.prove(f"{base}/da.exponent.one_bounded_scalar_minimisation/{cfg}", len(opt.calls) == 1 and opt.calls[0]['kind'] == 'minimize_scalar'
+                  and opt.calls[0]['method'] == 'bounded' and list(opt.calls[0]['bounds']) == [1, 3], extra=x)
+        if len(opt.calls) != 1:
+            return
+        c = opt.calls[0]
+        if not c['success']:
+            eng.prove(f"{base}/da.exponent.minimiser_failure_is_CalculationError/{cfg}", out == 'CalculationError', extra=x)
+            return
+        eng.prove(f"{base}/da.exponent.returns/{cfg}", out == 'return', extra=x)
+        if out != 'return':
+            return
+        (vol, pot, exp_, slope, icpt, minimum, maximum, corr) = res
+        eng.prove(f"{base}/da.exponent.reported_exponent_is_the_minimiser_result/{cfg}", exp_ is c['x'], extra=x)
+        last = stat.calls[-1]
+        want_x = DA.log_p_exp(_arr(ps), c['x'])
+        eng.prove(f"{base}/da.exponent.final_fit_at_the_returned_exponent/{cfg}", sx.And(*[sx.eq(a, b) for a, b in zip(last['x'], want_x)])
+                  and slope is last['result'][0] and icpt is last['result'][1], extra=x)
+        eng.prove(f"{base}/da.volume_is_exp_intercept/{cfg}", sx.eq(vol, sx.sym_exp(last['result'][1])), extra=x)
+        eng.assume(last['result'][0] < 0)
+        eng.prove(f"{base}/da.energy_is_RT_over_root_of_minus_slope/{cfg}", sx.eq(pot, R_GAS * T / ((-last['result'][0]) ** (1 / c['x'])) / 1000), extra=x)
+        # the objective, probed at an arbitrary exponent
+        e0 = eng.real('e_probe', positive=True)
+        eng.assume((e0 >= 1) & (e0 <= 3))
+        k = len(stat.calls)
+        val = c['fun'](e0)
+        mine = stat.calls[k:]
+        eng.prove(f"{base}/da.exponent.objective_runs_one_fit_at_the_probed_exponent/{cfg}", len(mine) == 1 and
+                  sx.And(*[sx.eq(a, b) for a, b in zip(mine[0]['x'], DA.log_p_exp(_arr(ps), e0))]), extra=x)
+        if len(mine) == 1:
+            r = mine[0]['result'][2]
+            eng.prove(f"{base}/da.exponent.objective_is_one_minus_r_squared_scale_free/{cfg}", sx.eq(val, 1 - r * r), extra=x)
+            eng.prove(f"{base}/da.exponent.objective_nonnegative_and_zero_for_a_perfect_line/{cfg}", sx.And(val >= 0, sx.Implies(sx.eq(r * r, 1), sx.eq(val, 0))), extra=x)
+    return collect(eng, run, base, cfg)
 
 
 def cas_block(_b):
@@ -448,7 +513,9 @@ def run(rep):
     rep.assume('scipy.stats.linregress: exact-fit lemma (points on one line => slope, intercept of that line, r^2 = 1); nothing otherwise',
                'numpy.searchsorted / flatnonzero / slicing executed by real numpy on object arrays (definitions as documented)',
                'real arithmetic; scipy.constants lifted to the decimals they spell; exp/ln uninterpreted with the usual axioms',
-               'a point equal to a limit may fall on either side (the property does not say); Rouquerol end: the point before or at the first decrease')
+               'a point equal to a limit may fall on either side (the property does not say); Rouquerol end: the point before or at the first decrease',
+               'scipy.optimize.minimize_scalar(bounded): success => result inside the bounds; that it finds the global minimum of the (proved scale-free, '
+               'zero-at-the-generating-exponent) objective is NOT assumed -- exponent recovery with the real minimiser is a bounded stand-in')
     rep.trust('CPython 3.12', 'z3 5.1.0', 'sympy 1.14', 'pgv.sx', 'pgv.lift', 'pgv.npproxy')
     nmax = 4 if rep.tier == 'quick' else 6
     jobs = []
@@ -465,4 +532,7 @@ def run(rep):
     rep.extend(obs)
     if crashes:
         rep.crash = crashes[0]
+    from pgv.replayers import c14 as R14
+    for res in R14.da_exponent_cases(rep.seed, thorough=rep.tier == 'thorough'):
+        rep.add_bounded(f"{P}/bounded.{res['name']}", res['ok'], res['detail'], replay={'kind': 'c14.da_case', 'name': res['name'], 'seed': rep.seed})
     rep.shape_bounded = {'N': nmax, 'what': f'arrays of 3..{nmax} symbolic, strictly increasing pressures', 'obligations': len(obs)}
